@@ -294,6 +294,7 @@ func C03(c *core.Ctx) {
 	c03TotalsOrder(c, "C03-R7")
 	c.Rule("C03-R8", "the calculation runs under the document's own rounding rule and included category whenever set", 1)
 	c03RuleSelection(c, "C03-R8")
+	c03RowPrecision(c)
 	c.Rule("C03-R6", "each rate row's amount and surcharge are Percent.Of(the row's stored Base)", 2)
 	rateAmountFromBase(c, "C03-R6")
 	// R3
@@ -660,4 +661,98 @@ func c03RuleSelection(c *core.Ctx, rule string) {
 	}
 	c.Ob(rule, key, lit.Pos(), len(bad) == 0,
 		"the rounding rule / included category used are not the document's own settings in every combination: "+strings.Join(bad, "; "))
+}
+
+// c03RowPrecision — C03-R9: a discount or charge row is not presented with fewer
+// decimals than its currency. Where a rounding function of package bill that
+// knows the currency (a `cur` parameter) lowers an amount to an exponent held in
+// a variable, that variable starts from the currency's subunits and may only be
+// replaced by something known to be larger (`if x > e { e = x }`, max): a base
+// given as "1001" (no decimals) otherwise rounds the row's amount to 25 while
+// the document's charge total, summed before, says 25.03.
+func c03RowPrecision(c *core.Ctx) {
+	p := c.P
+	c.Rule("C03-R9", "a row's presentation precision is at least the currency's", 2)
+	pk := p.Pkg("bill")
+	if pk == nil {
+		return
+	}
+	n := 0
+	for _, fd := range p.Funcs(pk) {
+		if p.IsTestFile(fd.Decl.Pos()) || fd.Decl.Body == nil {
+			continue
+		}
+		sig := fd.Obj.Type().(*types.Signature)
+		hasCur := false
+		for i := 0; i < sig.Params().Len(); i++ {
+			if core.TypeString(sig.Params().At(i).Type()) == "currency.Code" {
+				hasCur = true
+			}
+		}
+		if !hasCur {
+			continue
+		}
+		info := fd.Pkg.TypesInfo
+		ld := core.NewLocalDefs(info, fd.Decl.Body)
+		var ff *core.FuncFlow
+		ast.Inspect(fd.Decl.Body, func(m ast.Node) bool {
+			call, ok := m.(*ast.CallExpr)
+			if !ok || len(call.Args) != 1 {
+				return true
+			}
+			fn := core.Callee(info, call)
+			if !isAmountMethod(fn, "RescaleDown") && !isAmountMethod(fn, "Rescale") {
+				return true
+			}
+			ev := core.VarOf(info, call.Args[0])
+			if ev == nil || ev.IsField() {
+				return true
+			}
+			defs := ld.All(ev)
+			if len(defs) == 0 {
+				return true
+			}
+			fromCurrency := func(e ast.Expr) bool {
+				s := types.ExprString(ast.Unparen(e))
+				return strings.Contains(s, "Subunits") || strings.Contains(s, "Zero().Exp()") || strings.HasSuffix(s, "zero.Exp()")
+			}
+			n++
+			bad := ""
+			for _, d := range defs {
+				if d.RHS == nil || fromCurrency(d.RHS) {
+					continue
+				}
+				if call, isCall := ast.Unparen(d.RHS).(*ast.CallExpr); isCall {
+					if id, isId := call.Fun.(*ast.Ident); isId && id.Name == "max" {
+						continue
+					}
+				}
+				// guarded by `<new> > e`
+				if ff == nil {
+					ff = core.NewFuncFlow(fd)
+				}
+				guarded := false
+				if node := ff.Flow.EnclosingNode(d.Stmt); node != nil {
+					rs := types.ExprString(ast.Unparen(d.RHS))
+					for leaf, val := range ff.Flow.CondsAt(node) {
+						be, ok := ast.Unparen(leaf).(*ast.BinaryExpr)
+						if !ok || !val {
+							continue
+						}
+						l, r := types.ExprString(ast.Unparen(be.X)), types.ExprString(ast.Unparen(be.Y))
+						if (be.Op == token.GTR && l == rs && core.VarOf(info, be.Y) == ev) || (be.Op == token.LSS && r == rs && core.VarOf(info, be.X) == ev) {
+							guarded = true
+						}
+					}
+				}
+				if !guarded {
+					bad = fmt.Sprintf("%s (at %s)", types.ExprString(d.RHS), p.Rel(d.Pos))
+				}
+			}
+			c.Ob("C03-R9", fmt.Sprintf("%s#%s", fd.Name(), ev.Name()), call.Pos(), bad == "",
+				fmt.Sprintf("%s lowers the row's amount to an exponent that may be set from %s without being known to exceed the currency's decimals: a row given with a base of fewer decimals than the currency is presented rounded to the base's precision, while the document total it belongs to was summed from the unrounded amount — the presented rows no longer add up to the presented total", fd.Name(), bad))
+			return true
+		})
+	}
+	c.Extra("C03-R9_row_rounding_sites", n)
 }
